@@ -146,6 +146,7 @@ pub open spec fn zc_all_fresh(length: u32, r: Seq<ZoomCounts>) -> bool {
 
 impl BigWigFullProcess {
 //@extract method bigtools/src/bbi/bigwigwrite.rs create "BBIDataProcessorCreate for BigWigFullProcess"
+//@rule R16
 //@rule R12c
 //@sub /zooms_channels\s*\.into_iter\(\)\s*\.map\(\|\(size, channel\)\| (ZoomItem \{[^{}]*\})\)\s*\.collect\(\)/ => { let mut src__ = zooms_channels; let ghost src0__ = src__@; let mut out__ = Vec::new(); while src__.len() > 0 { let (size, channel) = src__.remove(0); out__.push(\1); } out__ } min=0
 //@ret r
@@ -178,6 +179,7 @@ impl BigWigFullProcess {
 
 impl BigWigNoZoomsProcess {
 //@extract method bigtools/src/bbi/bigwigwrite.rs create "BBIDataProcessorCreate for BigWigNoZoomsProcess"
+//@rule R16
 //@rule R12c
 //@sub /Self::I\b/ => NoZoomsInternalProcessData min=1
 //@sub /std::iter::successors\((Some\([^()]*\)), \|z\| (.*?)\)\s*\.take_while\(\|z\| (.*?)\)\s*\.map\(\|z\| (ZoomCounts \{[^{}]*\})\)\s*\.collect\(\)/ => { let mut out__: Vec<ZoomCounts> = Vec::new(); let mut next__: Option<u64> = \1; loop { let item__: u64 = match next__ { Some(v__) => v__, None => { break; } }; next__ = { let z = &item__; \2 }; if !({ let z = &item__; \3 }) { break; } out__.push({ let z = item__; \4 }); } out__ } min=0
@@ -218,6 +220,7 @@ impl BigWigNoZoomsProcess {
 
 impl BigWigZoomsProcess {
 //@extract method bigtools/src/bbi/bigwigwrite.rs create "BBIDataProcessorCreate for BigWigZoomsProcess"
+//@rule R16
 //@sub /Self::I\b/ => ZoomsInternalProcessData min=1
 //@sub /zooms_channels\s*\.into_iter\(\)\s*\.map\(\|\(size, channel\)\| (ZoomItem \{[^{}]*\})\)\s*\.collect\(\)/ => { let mut src__ = zooms_channels; let ghost src0__ = src__@; let mut out__ = Vec::new(); while src__.len() > 0 { let (size, channel) = src__.remove(0); out__.push(\1); } out__ } min=0
 //@ret r
@@ -302,6 +305,7 @@ pub open spec fn zc_all_fresh(length: u32, r: Seq<ZoomCounts>) -> bool {
 
 impl BigBedFullProcess {
 //@extract method bigtools/src/bbi/bigbedwrite.rs create "BBIDataProcessorCreate for BigBedFullProcess"
+//@rule R16
 //@sub /IndexList::new\(\)/ => VList::new() min=0
 //@sub /zooms_channels\s*\.into_iter\(\)\s*\.map\(\|\(size, channel\)\| (ZoomItem \{[^{}]*\})\)\s*\.collect\(\)/ => { let mut src__ = zooms_channels; let ghost src0__ = src__@; let mut out__ = Vec::new(); while src__.len() > 0 { let (size, channel) = src__.remove(0); out__.push(\1); } out__ } min=0
 //@ret r
@@ -336,6 +340,7 @@ impl BigBedFullProcess {
 
 impl BigBedNoZoomsProcess {
 //@extract method bigtools/src/bbi/bigbedwrite.rs create "BBIDataProcessorCreate for BigBedNoZoomsProcess"
+//@rule R16
 //@sub /Self::I\b/ => NoZoomsInternalProcessData min=1
 //@sub /IndexList::new\(\)/ => VList::new() min=0
 //@sub /std::iter::successors\((Some\([^()]*\)), \|z\| (.*?)\)\s*\.take_while\(\|z\| (.*?)\)\s*\.map\(\|z\| (ZoomCounts \{[^{}]*\})\)\s*\.collect\(\)/ => { let mut out__: Vec<ZoomCounts> = Vec::new(); let mut next__: Option<u64> = \1; loop { let item__: u64 = match next__ { Some(v__) => v__, None => { break; } }; next__ = { let z = &item__; \2 }; if !({ let z = &item__; \3 }) { break; } out__.push({ let z = item__; \4 }); } out__ } min=0
@@ -378,6 +383,7 @@ impl BigBedNoZoomsProcess {
 
 impl BigBedZoomsProcess {
 //@extract method bigtools/src/bbi/bigbedwrite.rs create "BBIDataProcessorCreate for BigBedZoomsProcess"
+//@rule R16
 //@sub /Self::I\b/ => ZoomsInternalProcessData min=1
 //@sub /IndexList::new\(\)/ => VList::new() min=0
 //@sub /zooms_channels\s*\.into_iter\(\)\s*\.map\(\|\(size, channel\)\| (ZoomItem \{[^{}]*\})\)\s*\.collect\(\)/ => { let mut src__ = zooms_channels; let ghost src0__ = src__@; let mut out__ = Vec::new(); while src__.len() > 0 { let (size, channel) = src__.remove(0); out__.push(\1); } out__ } min=0
